@@ -1,6 +1,8 @@
 package main
 
 import (
+	"strings"
+
 	"verif/harness/lib"
 	"verif/harness/prog"
 )
@@ -25,17 +27,25 @@ func c01Program(g *prog.Gen, idx int) []*prog.Op {
 	keys = keys[:3+g.R.Intn(3)]
 	n := 6 + g.R.Intn(10)
 	mpDone := map[string]bool{}
+	isMP := map[string]bool{} // the key (probably) holds an object assembled from parts
 	for i := 0; i < n; i++ {
 		k := keys[g.R.Intn(len(keys))]
 		caller := []string{"root", "u:adm1"}[g.R.Intn(2)]
 		switch g.R.Intn(10) {
 		case 0, 1, 2, 3, 4:
 			ops = append(ops, &prog.Op{Kind: "putObject", Caller: caller, B: b, K: k, Put: g.PutSpec(), Valid: true})
+			isMP[k] = false
 		case 5, 6:
 			o := &prog.Op{Kind: "copyObject", Caller: caller, SB: b, SK: keys[g.R.Intn(len(keys))], B: b, K: k, Valid: true}
 			self := g.R.Chance(35)
 			if self {
 				o.SK = k
+			}
+			if isMP[o.SK] {
+				// a copy of a multipart object gets the MD5 of its content as ETag (as S3 does), which the model
+				// cannot compute: such copies are left out of the comparison
+				ops = append(ops, &prog.Op{Kind: "headObject", Caller: caller, B: b, K: o.SK})
+				break
 			}
 			if self || g.R.Chance(50) {
 				o.Put = g.PutSpec()
@@ -53,6 +63,7 @@ func c01Program(g *prog.Gen, idx int) []*prog.Op {
 		// upload ids are resolved by key); some are created with a FULL_OBJECT checksum, some have two parts
 		if !mpDone[k] && g.R.Chance(22) {
 			mpDone[k] = true
+			isMP[k] = true
 			ps := g.PutSpec()
 			ps.Data, ps.Encoding = nil, ""
 			if g.R.Chance(40) {
@@ -67,7 +78,8 @@ func c01Program(g *prog.Gen, idx int) []*prog.Op {
 			for pn, sz := range sizes {
 				d := []prog.Seg{{Seed: 4000 + 10*idx + pn, Off: g.R.Intn(9), Len: sz}}
 				ops = append(ops, &prog.Op{Kind: "uploadPart", Caller: caller, B: b, K: k, UpRef: true, Num: pn + 1, Data: d})
-				refs = append(refs, prog.PartRef{Num: pn + 1, ETag: (&prog.PutSpec{Data: d}).ETag()})
+				// a part's ETag is answered (and expected back) without quotes
+				refs = append(refs, prog.PartRef{Num: pn + 1, ETag: strings.Trim((&prog.PutSpec{Data: d}).ETag(), "\"")})
 			}
 			ops = append(ops, &prog.Op{Kind: "completeUpload", Caller: caller, B: b, K: k, UpRef: true, Parts: refs})
 			ops = append(ops, &prog.Op{Kind: "getObjectTagging", Caller: caller, B: b, K: k})
